@@ -431,9 +431,9 @@ Section Print.
 End Print.
 
 (* ---------------------------------------------------------------- jbl_as_json: printer of the binary form (src/json/iwjson.c _jbl_as_json).
-   Seen from the text it differs from the node printer in two ways: the indentation is always one space per
-   level (the INDENT2/INDENT4 bits are ignored) and strings and member names are written with len = -1, i.e. up
-   to their first NUL.  The binary encoding itself (iwbinn.c) is not part of this model: `v` is the value the
+   Seen from the text it differs from the node printer in one way: strings and member names are written with
+   len = -1, i.e. up to their first NUL.  (Until d42c39c the indentation was one space per level whatever the
+   INDENT2/INDENT4 bits said; it is `lvl * indent + indent` like the node printer's now.)  The binary encoding itself (iwbinn.c) is not part of this model: `v` is the value the
    binn buffer holds. *)
 Fixpoint cstr0 (s : list Z) : list Z :=
   match s with [] => [] | c :: r => if c =? 0 then [] else c :: cstr0 r end.
@@ -453,13 +453,13 @@ Section PrintJbl.
     | JStr s => write_json_string pf (cstr0 s)
     | JArr items =>
       let open := [91] ++ (match items with [] => [] | _ => if pretty then [10] else [] end) in
-      let close := (match items with [] => [] | _ => if pretty then rep 32 lvl else [] end) ++ [93] in
+      let close := (match items with [] => [] | _ => if pretty then rep 32 (lvl * indent pf) else [] end) ++ [93] in
       match (fix go (l : list jval) : res (list Z) :=
                match l with
                | [] => Ok []
                | x :: r =>
                  bind2 (print_jbl (lvl + 1) x) (go r) (fun a b =>
-                   (if pretty then rep 32 (lvl + 1) else []) ++ a
+                   (if pretty then rep 32 (lvl * indent pf + indent pf) else []) ++ a
                    ++ (match r with [] => [] | _ => [44] end) ++ (if pretty then [10] else []) ++ b)
                end) items with
       | Err e => Err e
@@ -467,7 +467,7 @@ Section PrintJbl.
       end
     | JObj members =>
       let open := [123] ++ (match members with [] => [] | _ => if pretty then [10] else [] end) in
-      let close := (match members with [] => [] | _ => if pretty then rep 32 lvl else [] end) ++ [125] in
+      let close := (match members with [] => [] | _ => if pretty then rep 32 (lvl * indent pf) else [] end) ++ [125] in
       match (fix go (l : list (list Z * jval)) : res (list Z) :=
                match l with
                | [] => Ok []
@@ -476,7 +476,7 @@ Section PrintJbl.
                  | Err e => Err e
                  | Ok kt =>
                    bind2 (print_jbl (lvl + 1) x) (go r) (fun a b =>
-                     (if pretty then rep 32 (lvl + 1) else []) ++ kt
+                     (if pretty then rep 32 (lvl * indent pf + indent pf) else []) ++ kt
                      ++ (if pretty then [58; 32] else [58]) ++ a
                      ++ (match r with [] => [] | _ => [44] end) ++ (if pretty then [10] else []) ++ b)
                  end
